@@ -1171,7 +1171,15 @@ func (g *c13gen) v6Case(hostile bool) Case {
 		i := live[g.rng.Intn(len(live))]
 		f := seqs[i][0]
 		seqs[i] = seqs[i][1:]
-		ops = append(ops, fmt.Sprintf("f6:%d,%d,%d,%d,%d,%d,%d,%d,%d,%s", f.src, f.dst, f.id, f.off, f.more, f.nh, 3, 77, 64, hex.EncodeToString(f.pl)))
+		// the NextHeader of the result is the last fragment's; the other header fields the first one's
+		nh, tc := f.nh, 3
+		if g.rng.Intn(3) == 0 {
+			nh = []int{6, 17, 58, 44}[g.rng.Intn(4)]
+		}
+		if f.off != 0 && g.rng.Intn(3) == 0 {
+			tc = 9
+		}
+		ops = append(ops, fmt.Sprintf("f6:%d,%d,%d,%d,%d,%d,%d,%d,%d,%s", f.src, f.dst, f.id, f.off, f.more, nh, tc, 77, 64, hex.EncodeToString(f.pl)))
 	}
 	switch g.rng.Intn(4) {
 	case 0:
